@@ -3,7 +3,7 @@ from .. import routing as R
 from .. import vfcore as V
 
 PROP = "C03"
-TARGETS = ["theories/Routing/Witness.vo", "theories/Routing/Basic.vo", "theories/Routing/Mono.vo"]
+TARGETS = ["theories/Routing/Witness.vo", "theories/Routing/Basic.vo", "theories/Routing/Mono.vo", "theories/Routing/Complete.vo"]
 
 
 def nontrivial(h, ev):
